@@ -257,6 +257,33 @@ def fast_reply_rules(fx, v, prop):
                     'every initiation of a stream write is preceded (dominated) by clear_fast_replies(): an early '
                     'acknowledgement cannot survive into the exchange that starts with this write',
                     key='%s:R-DOM:do_write:purge-fast-replies' % prop, where='%s:%d' % (f.path_file(), wl))
+        # ... and ONLY then: a parked acknowledgement may belong to an exchange whose write is still in flight (its waiter
+        # registers when that write completes); purging on a call that starts no write discards a reply that is due
+        paired = True
+        n_paths = 0
+        for blocks, abort in f.paths(loop_bound=1):
+            if abort:
+                continue
+            n_paths += 1
+            has_p = has_w = False
+            for b_ in blocks:
+                for i_ in range(len(f.blocks[b_].elems)):
+                    x = f.resolve({'k': 'elem', 'b': b_, 'i': i_})
+                    if isinstance(x, dict) and x.get('k') == 'call':
+                        if callee_name(x) == 'clear_fast_replies':
+                            has_p = True
+                        elif callee_name(x) == 'async_write' and callee_cls(x) == 'autoconnect_stream':
+                            has_w = True
+            if has_p != has_w:
+                paired = False
+        v.check(paired and n_paths > 0, 'R-DOM', 'async_sender::do_write:purge-iff-write [%s]' % f.tu,
+                'parked acknowledgements are purged on exactly the paths that start a stream write',
+                key='%s:R-DOM:do_write:purge-iff-write' % prop, where=f.file)
+    from callgraph import CallGraph as _CG
+    for caller, nn, line in _CG(fx).callers_of(lambda c, n_: c.cls == 'replies' and c.n == 'clear_fast_replies'):
+        v.check(caller.cls == 'async_sender' and caller.n == 'do_write', 'R-DOM', '%s::%s calls clear_fast_replies [%s]' % (caller.cls, caller.n, caller.tu),
+                'parked acknowledgements are purged only by the writer', key='%s:R-DOM:clear_fast_replies<-%s::%s' % (prop, caller.cls, caller.n),
+                where='%s:%s' % (caller.path_file(), line))
     for f in fx.fns:
         if f.cls == 'replies' and not f.lam:
             for b, i, l, c in f.calls():
